@@ -232,7 +232,8 @@ class SimEnv:
 
     def sim_open(self, file, mode="r", *a, **kw):
         is_out = any(c in mode for c in "wax+")
-        self.events.add("open_out" if is_out else "open", os.path.basename(str(file)), mode)
+        cnt = self.tracer.count if getattr(self, "tracer", None) is not None else None
+        self.events.add("open_out" if is_out else "open", os.path.basename(str(file)), mode, cnt)
         f = self.plan.match("open_error", file, is_out)
         if f is not None and not f["fired"]:
             self.plan.fire(f, file)
@@ -275,10 +276,14 @@ class SimEnv:
         os.chdir(self.dir)
         status, exc = 0, None
         tracer = None
+        self.tracer = None
+        if self.spec.get("syspath"):
+            sys.path.insert(0, self.dir)
         try:
             try:
                 if self.spec.get("crash_at") is not None or self.spec.get("count_lines"):
-                    tracer = CrashTracer(self.spec.get("crash_at"), watch=("run", "generate_code", "generate", "parse_args"))
+                    tracer = self.tracer = CrashTracer(self.spec.get("crash_at"),
+                                                       watch=("run", "generate_code", "generate", "parse_args"))
                     with tracer:
                         cli.main()
                 else:
